@@ -140,9 +140,19 @@ def reallocCore (info' : NodeInfo) (B maxShare : Int) (originMap : CpuMap) (newR
 def givenBack (info : NodeInfo) (origin : Workload) : NodeInfo :=
   { info with use := info.use.sub { cpuMap := origin.cpuMap, mem := origin.memReq, numaMem := origin.numaMem } }
 
+/-- flag handling of `CalculateRealloc` (`if req.KeepCPUBind { req.CPUBind = len(origin.CPUMap) > 0 }`),
+    all four combinations:
+    * `keep-cpu-bind` only, or together with `cpu-bind`: bound iff the workload has a CPU map — the
+      explicit `cpu-bind` is overwritten, both are keep-bind requests;
+    * `cpu-bind` only: bound (also for a workload that was not bound before);
+    * neither: not bound (a bound workload loses its binding).
+    In every bound case the scheduler is given the origin CPU map for affinity. -/
+def reallocBind (origin : Workload) (raw : RawReq) : Bool :=
+  if raw.keepBind then !origin.cpuMap.isEmpty else raw.bind
+
 /-- the request `CalculateRealloc` validates: old amounts plus deltas -/
 def reallocReq (origin : Workload) (raw : RawReq) : RawReq :=
-  { bind := if raw.keepBind then !origin.cpuMap.isEmpty else raw.bind,
+  { bind := reallocBind origin raw,
     cpuReq := raw.cpuReq + origin.cpuReq, cpuLim := raw.cpuLim + origin.cpuLim,
     memReq := raw.memReq + origin.memReq, memLim := raw.memLim + origin.memLim }
 
